@@ -449,11 +449,12 @@ class SimNet:
         elif pol == "byte":
             # byte-at-a-time for the first 512 bytes of a direction, then small
             # pieces (a 1 MiB body one byte at a time would only burn budget)
-            k = 1 if pipe.delivered < 512 else ch.draw("seg", 1, 64)
+            k = 1 if pipe.delivered < 512 else (ch.draw("seg", 1, 64) if pipe.delivered < 8192 else ch.draw("seg", 1, 4096))
         elif pol == "tiny":
-            k = ch.draw("seg", 1, 4)
+            # fine cuts for the first KiBs of a direction, coarser for bulk data
+            k = ch.draw("seg", 1, 4) if pipe.delivered < 2048 else ch.draw("seg", 1, 1024)
         elif pol == "small":
-            k = ch.draw("seg", 1, 64)
+            k = ch.draw("seg", 1, 64) if pipe.delivered < 8192 else ch.draw("seg", 1, 4096)
         elif pol == "mss":
             k = 1460
         elif pol == "mixed":
@@ -517,7 +518,11 @@ class SimNet:
                 kind = pipe.kill_kind
                 pipe.kill_at = None
                 self.loop.faults["kill_" + kind] += 1
-                self.kill(src, kind)
+                if kind.startswith("peer_"):
+                    # the *reader* of this direction dies after k bytes reached it
+                    self.kill(dst, kind[5:])
+                else:
+                    self.kill(src, kind)
                 return
         if pipe.buf:
             if not dst._read_paused:
